@@ -154,6 +154,7 @@ def generate(rng, tier):
     frames = rng.choice([1, 1, 1, 2, 3, 4])
     m = rng.randint(2, hi)
     n = m if rng.random() < 0.4 else rng.randint(2, hi)
+    big = rng.random() < (0.001 if tier == "quick" else 0.003)
     c = rng.random()
     if c < 0.5:
         m, n = 2 * ((m + 1) // 2), 2 * ((n + 1) // 2)      # even shapes feed the Bayer stage
@@ -163,11 +164,15 @@ def generate(rng, tier):
         n = 1
     elif c < 0.72:
         m = n = 1
+    if big:
+        # a realistically large burst (several million samples in one call)
+        m, n, frames = rng.choice([(512, 512, 17), (480, 640, 15), (256, 256, 70), (1024, 600, 7)])
+        prnu = dcnu = None
     prnu = dcnu = None
-    if not exact and rng.random() < 0.3:
+    if not exact and not big and rng.random() < 0.3:
         prnu = {"seed": rng.getrandbits(32), "spread": rng.choice([0.0, 0.02, 0.3]),
                 "dtype": rng.choice(["f64", "f64", "f32"]), "zeros": rng.random() < 0.1}
-    if rng.random() < 0.2:
+    if not big and rng.random() < 0.2:
         dcnu = {"seed": rng.getrandbits(32), "spread": rng.choice([0.0, 0.1, 0.5]),
                 "dtype": rng.choice(["f64", "f64", "f32", "i64"])}
     det = {"bits": bits, "gain": gain, "bias": bias, "fwc": fwc, "dark": dark, "t": t,
@@ -214,7 +219,12 @@ def generate(rng, tier):
                         "scalar": rng.random() < 0.25, "stack": rng.random() < 0.5,
                         "src": rng.choice(["float", "float", "dn", "dn", "bool"])})
         else:
-            ops.append({"op": "bayer", "cfa": rng.choice(["rggb", "bggr"]), "as_int": rng.random() < 0.5})
+            ops.append({"op": "bayer", "cfa": rng.choice(["rggb", "bggr"]), "as_int": rng.random() < 0.5,
+                        "signed": rng.random() < 0.25})
+    if big:
+        ops = [{"op": "expose"}, {"op": "again"}]          # the burst itself is the point; no per-block Python loops
+        if rng.random() < 0.7:
+            mode = "off"                                    # every sample of every frame is then decided exactly
     return {"prop": PROP, "tier": tier, "config": {"mode": mode, "rng_seed": rng.getrandbits(48),
                                                     "reuse_detector": rng.random() < 0.6},
             "det": det, "img": img, "ops": ops}
@@ -616,7 +626,12 @@ def execute(plan):
                 ev["out"] = "skip"
                 events.append(ev)
                 continue
-            if op["as_int"]:
+            if op.get("signed"):
+                mos = mos - np.floor(mos.mean()) - 3.0          # pedestal-subtracted raw data: negative samples
+                if op["as_int"]:
+                    mos = np.clip(mos, -30000, 30000).astype(np.int32)
+                bump(probes, "bayer_signed_mosaic")
+            elif op["as_int"]:
                 mos = np.minimum(mos, 65535).astype(np.uint16)
             mos = mos.copy()
             if (mos.shape[0] + mos.shape[1]) % 3 == 0:
